@@ -259,6 +259,11 @@ func (r *Report) Finish(verifDir string, seed int) int {
 			samples = append(samples, map[string]string{"rule": o.Rule, "construct": o.Key, "checked": o.What, "at": o.Pos, "verdict": o.Status, "detail": o.Detail})
 		}
 	}
+	var all []string
+	for _, o := range r.Obs {
+		all = append(all, o.Rule+" "+o.Key+" @"+o.Pos+" "+o.Status)
+	}
+	sort.Strings(all)
 	ruleCounts := map[string]map[string]int{}
 	for _, o := range r.Obs {
 		m := ruleCounts[o.Rule]
@@ -282,6 +287,7 @@ func (r *Report) Finish(verifDir string, seed int) int {
 		"distinct_nontrivial": len(distinct),
 		"rule":                "one obligation per (rule instance × construct), keyed by rule+construct; distinct = distinct keys; every obligation names a construct resolved through go/types objects in the current source",
 		"samples":             samples,
+		"all_obligations":     all,
 		"per_rule":            ruleCounts,
 		"known_findings":      nknown,
 		"unsuppressed":        nviol,
